@@ -77,7 +77,8 @@ def pdhg(x, f, g, A, tau, sigma, niter, **kwargs):
     else:
         y_new = A.range.element([y])
 
-    spdhg_generic(x, f, g, A, tau, [sigma], niter, fun_select, y=y_new,
+    spdhg_generic(x, f, g, A, tau, [sigma], niter, fun_select=fun_select,
+                  y=y_new,
                   **kwargs)
 
     if y is not None:
